@@ -15,6 +15,7 @@ import (
 	"reduction.dev/reduction/dkv/storage"
 	"reduction.dev/reduction/dkv/wal"
 	"reduction.dev/reduction/util/size"
+	"reduction.dev/reduction/util/verifhook"
 )
 
 var flushMemTablesQueue = bg.NewQueue(5)
@@ -97,6 +98,9 @@ func New(options DBOptions) *DB {
 		LevelSizeMultiplier:         10,
 		TargetTableSize:             int64(options.TargetFileSize),
 	}
+
+	compactor.SmallestLevelSize = verifhook.Tune("dkv.smallestLevelSize", compactor.SmallestLevelSize)
+	compactor.MaxSizeAmplificationPercent = int(verifhook.Tune("dkv.maxSizeAmpPct", int64(compactor.MaxSizeAmplificationPercent)))
 
 	db := &DB{
 		mtables: memtable.NewList(&memtable.MemTableOptions{
@@ -184,6 +188,7 @@ func (db *DB) Delete(key []byte) {
 
 func (db *DB) Get(key []byte) (kv.Entry, error) {
 	sstables := db.currentSSTables()
+	verifhook.At("dkv.get.between", db)
 
 	// First try to get from the memtables
 	v, err := db.mtables.Get(key)
@@ -201,6 +206,7 @@ func (db *DB) Get(key []byte) (kv.Entry, error) {
 
 func (db *DB) ScanPrefix(prefix []byte, errOut *error) iter.Seq[kv.Entry] {
 	sstables := db.currentSSTables()
+	verifhook.At("dkv.scan.between", db)
 	iters := []iter.Seq[kv.Entry]{db.mtables.ScanPrefix(prefix, errOut), sstables.ScanPrefix(prefix, errOut)}
 	return kv.MergeEntries(iters)
 }
@@ -216,9 +222,11 @@ func (db *DB) Checkpoint(ckptID uint64) (wait func() (recovery.CheckpointHandle,
 	db.mu.Unlock()
 
 	return bg.Task2(func() (recovery.CheckpointHandle, error) {
+		verifhook.At("dkv.ckpt.saveWal", db, ckptID)
 		if err := prevWAL.Save(); err != nil {
 			return recovery.CheckpointHandle{}, err
 		}
+		verifhook.At("dkv.ckpt.saveDoc", db, ckptID)
 		uri, err := db.checkpoints.Save(db.fs)
 		if err != nil {
 			return recovery.CheckpointHandle{}, err
@@ -268,6 +276,7 @@ func (db *DB) rotateMemtable() {
 
 	// Write sealed tables to sstables
 	db.tasks.Enqueue(flushMemTablesQueue, func() error {
+		verifhook.At("dkv.flush.start", db)
 		sealedTables := db.mtables.Sealed()
 
 		cs := &sst.ChangeSet{}
@@ -281,15 +290,19 @@ func (db *DB) rotateMemtable() {
 
 		// Replace the set of sstables, clear old memtables, clear wal entries all
 		// in one lock
+		verifhook.At("dkv.flush.swap", db)
 		db.mu.Lock()
 		db.sstables = db.sstables.NewWithChangeSet(cs)
 		db.mtables.Dequeue(sealedTables)
 		db.wal.Truncate(db.sstables.LatestSeqNum)
 		db.mu.Unlock()
+		verifhook.At("dkv.flush.swapped", db)
 
 		// Run compact steps until there is no changeset
 		db.tasks.Enqueue(compactionQueue, func() error {
+			defer verifhook.At("dkv.compact.done", db)
 			for {
+				verifhook.At("dkv.compact.pick", db)
 				cs, err := db.compactor.Compact(db.currentSSTables())
 				if err != nil {
 					return err
@@ -298,9 +311,11 @@ func (db *DB) rotateMemtable() {
 					return nil
 				}
 
+				verifhook.At("dkv.compact.swap", db)
 				db.mu.Lock()
 				db.sstables = db.sstables.NewWithChangeSet(cs)
 				db.mu.Unlock()
+				verifhook.At("dkv.compact.swapped", db)
 			}
 		})
 
